@@ -858,12 +858,14 @@ func extractGlobals(repo, gen, facts string) {
 			all = append(all, *p.vars[n])
 		}
 	}
+	appends := extractAppends(pkgOrder)
 	type fact struct {
 		Globals  []globalVar  `json:"globals"`
 		Closures []closureRec `json:"closures"`
+		Appends  []appendRow  `json:"appends"`
 		Notes    []string     `json:"notes,omitempty"`
 	}
-	js, _ := json.MarshalIndent(fact{all, closures, notes}, "", " ")
+	js, _ := json.MarshalIndent(fact{all, closures, appends, notes}, "", " ")
 	writeIfChanged(filepath.Join(facts, "globals.json"), string(js)+"\n")
 
 	var b strings.Builder
@@ -909,6 +911,14 @@ func extractGlobals(repo, gen, facts string) {
 			fmt.Fprintf(&b, "{ name := %q, how := .%s, decl := .%s, underLock := %v }", w.Var, w.How, decl, w.UnderLock)
 		}
 		b.WriteString("] }")
+	}
+	b.WriteString("]\n\n")
+	b.WriteString("def appends : List AppendRow := [\n")
+	for i, a := range appends {
+		if i > 0 {
+			b.WriteString(",\n")
+		}
+		fmt.Fprintf(&b, "  { pkg := %q, func := %q, operand := %q, via := %q, how := .%s }", a.Pkg, a.Func, a.Operand, a.Via, a.How)
 	}
 	b.WriteString("]\nend StorageModel.Generated\n")
 	writeIfChanged(filepath.Join(gen, "Globals.lean"), b.String())
